@@ -25,6 +25,7 @@ def check(ctx):
     n = eofstores.check(ctx, rep)
     rep.floor("stores to Scanner.is_eof", n, 3)
     sccs = recursion.check(ctx, E, rep, decoder=True)
+    recursion.check_guard_balance(ctx, rep)
     rep.floor("recursive call-graph cycles examined", len(sccs), 2)
     serde_limit(ctx, rep)
     rep.assume("A1: rustc's MIR of the default-feature lib build is the program")
